@@ -118,7 +118,14 @@ impl Boudot2000RangeProof {
             * Integer::from(h_2.pow_mod_ref(&mu_2, n).unwrap()))
             % n;
 
-        let str = w_1.to_string() + &w_2.to_string();
+        // the two commitments the proof is about (E = g_1^x h_1^r_1, F = g_2^x h_2^r_2) are part of the challenge
+        let E = (Integer::from(g_1.pow_mod_ref(x, n).unwrap())
+            * Integer::from(h_1.pow_mod_ref(r_1, n).unwrap()))
+            % n;
+        let F = (Integer::from(g_2.pow_mod_ref(x, n).unwrap())
+            * Integer::from(h_2.pow_mod_ref(r_2, n).unwrap()))
+            % n;
+        let str = w_1.to_string() + &w_2.to_string() + &E.to_string() + &F.to_string();
         let hash = <H as Digest>::digest(str);
         // the blinding ranges above are sized for a challenge of t bits
         let challenge =
@@ -170,7 +177,7 @@ impl Boudot2000RangeProof {
             * &inv_F)
             % n;
 
-        let str = lhs.to_string() + &rhs.to_string();
+        let str = lhs.to_string() + &rhs.to_string() + &E.to_string() + &F.to_string();
         let hash = <H as Digest>::digest(str);
         let output =
             Integer::from_digits(hash.as_slice(), Order::MsfBe) % Integer::from(2).pow(Self::t);
